@@ -211,7 +211,8 @@ def run_check(pid, tier, seed, replay=None):
     out.extra["known_findings_reobserved"] = {fid: n for fid, (f, n) in known.items()}
     for d in out.drift[:10]:
         print("MODEL-DRIFT property=%s %s" % (pid, d), flush=True)
-    if out.vacuous:
+    if out.vacuous and not new:
+        # (with violations observed on the real code the verdict stands; missing coverage is then a consequence, not a machinery problem)
         print("MACHINERY-FAILURE property=%s vacuous actions/clauses never exercised: %s" % (pid, out.vacuous), flush=True)
         write_evidence(pid, tier, seed, out, time.time() - t0, len(new))
         return 2
